@@ -27,8 +27,8 @@ CLAIMS = {
         text="Deductive proof that the real SyncOp::transform satisfies the documented conflict relation for all inputs (never invents operations; later timestamp wins; delete wins over update; disjoint changes and concurrent creates kept), with lemmas over that contract: OT diamond with validity preservation in every state, winner independent of sync order for non-tied pairs, exactly one survivor in a tie; lifted to sequences by apply_version's rebase theorem.",
         note="Ties (equal timestamps, different values) are left free by decision X1. Trusted: prelude stand-ins; rewrites R4/R7/R13 on the extracted text."),
     'C04': dict(
-        text="Proof over sync/apply_version/try_apply_op with fallible StorageTxn and Server contracts (any call may fail; add_version may have been carried out although it returned an error): every Err return leaves the transaction uncommitted and commit is the last effect; storage errors while applying server operations propagate (only invalid operations are ignored); the replica invariant is monotone in the chain, so the stored replica still satisfies it after an interruption and the next sync starts from its precondition; OutOfSync unreachable; identical operations cancel pairwise.",
-        note="'Uncommitted leaves no trace' is proved for the in-memory store (unit inmemory) and assumed for SQLite (C06 not applicable). The full 'own version received back yields no pending operations' lemma over the loops is not proved (only the pairwise cancellation)."),
+        text="Proof over sync/apply_version/try_apply_op with fallible StorageTxn and Server contracts (any call may fail; add_version may have been carried out although it returned an error): every Err return leaves the transaction uncommitted and commit is the last effect; storage errors while applying server operations propagate (only invalid operations are ignored); the replica invariant is monotone in the chain, so the stored replica still satisfies it after an interruption and the next sync starts from its precondition; OutOfSync unreachable; a version identical to the local operations cancels them completely.",
+        note="'Uncommitted leaves no trace' is proved for the in-memory store (unit inmemory) and assumed for SQLite (C06 not applicable). 'Own version received back' is proved on apply_version's loops for a version holding exactly the local operations (they cancel completely: nothing applied twice, nothing left to send)."),
     'C05': dict(
         text="Proof that the real apply_operations (cache, Entry API, flush loop) equals one-at-a-time application under the documented rules for every batch and prior state, valid or not; TaskDb::commit_operations appends the operations in order, is all-or-nothing (Err leaves the transaction uncommitted) and commits last; the replica invariant is preserved by local commits. Replica::commit_operations: empty batch changes nothing; otherwise tasks as applied one at a time and all-or-nothing.",
         note="End to end for the in-memory store (unit inmemory proves the storage contract); SQLite side assumed (A8). HashMap<Uuid,_> per vstd's model."),
